@@ -22,7 +22,7 @@ RULE = (
     "up to length 5. Negative cases: duplicate block names, named block in def / in <%call>. distinct = by "
     "template texts; non-trivial = some member is overridden at two or more levels."
 )
-RULE += " added since: attribute values that are falsy (None, 0, '', False), every declaration mask per level, nested named blocks, two bases alternating on one lookup through a dynamic <%inherit>, keyword-only <%page args>. every def and named block of every chain template rendered alone through get_def(), judged with that template as the most-derived one."
+RULE += " added since: attribute values that are falsy (None, 0, '', False), every declaration mask per level, nested named blocks, two bases alternating on one lookup through a dynamic <%inherit>, keyword-only <%page args>. every def and named block of every chain template rendered alone through get_def(), judged with that template as the most-derived one. dynamic inherit targets computed from a module attribute through context['self'].attr."
 ASSUMPTIONS = ["reference resolution in checks/c06.py (from the statement)"]
 MIN_NONTRIVIAL = 200
 REQUIRED_COUNTERS = ["chains_rendered", "dispatch_calls_model", "blocks_rendered_model", "negative_cases", "page_args_received", "missing_member_errors_matched", "get_def_renders"]
@@ -79,7 +79,11 @@ def emit_items(items, spec, out):
 def emit(spec, i, n):
     out = []
     if i < n:
-        if spec.get("dynamic"):
+        if spec.get("dynamic") == "attr":
+            # the target is a module attribute of this template, read through the most-derived namespace
+            out.append("<%%! layout%d_ = 't%d.html' %%>" % (i, i + 1))
+            out.append('<%%inherit file="${context[\'self\'].attr.layout%d_}"/>' % i)
+        elif spec.get("dynamic"):
             out.append('<%%inherit file="${context[\'target%d\']}"/>' % i)
         else:
             out.append('<%%inherit file="t%d.html"/>' % (i + 1))
@@ -374,6 +378,8 @@ def rand_chain(r):
         chain.append(spec)
     for i, spec in enumerate(chain):
         spec["target_none"] = bool(spec["dynamic"] and r.random() < 0.3)
+        if spec["dynamic"] and not spec["target_none"] and r.random() < 0.4:
+            spec["dynamic"] = "attr"
     cut = next((i for i, sp in enumerate(chain) if sp["target_none"]), None)
     full = chain
     if cut is not None:
